@@ -137,6 +137,24 @@ class ViolationFound(Exception):
     pass
 
 
+def _trim_compile_cache(limit_mb=int(os.environ.get("VERIF_CACHE_LIMIT_MB", "1500"))):
+    """The persistent XLA compilation cache under .cache/jax only ever grows (4 GB after a day of thorough runs):
+    start from an empty one once it passes the limit. Called by the parent process before any worker starts."""
+    import shutil
+
+    d = os.path.join(core.VERIF_DIR, ".cache", "jax")
+    try:
+        total = 0
+        with os.scandir(d) as it:
+            for e in it:
+                if e.is_file(follow_symlinks=False):
+                    total += e.stat(follow_symlinks=False).st_size
+        if total > limit_mb * 2**20:
+            shutil.rmtree(d, ignore_errors=True)
+    except OSError:
+        pass
+
+
 def _rss_mb():
     try:
         with open("/proc/self/statm") as fh:
@@ -369,6 +387,7 @@ def main(argv=None):
     pool_error = None
     import concurrent.futures as cf
 
+    _trim_compile_cache()
     recycled = 0
     # max_tasks_per_child=1: every task (also the continuation of a recycled worker) gets a fresh process
     with ProcessPoolExecutor(max_workers=nworkers, mp_context=ctx, max_tasks_per_child=1) as pool:
